@@ -41,6 +41,15 @@ ConcVerdict(e) ==
 VerdictC(p, e, s) ==
   IF "panic" \in DOMAIN e THEN V("panic", e.op, e.panic)
   ELSE CASE e.op = "ConcRound" -> ConcVerdict(e)
+         [] e.op = "AtomRound" ->
+              LET fl(t) == Loaded(e.nbytes, e.nhash, IF t = 0 THEN e.t0 ELSE e.t1, 0, {})
+                  d0 == Bip37Idx(fl(0), e.item)
+                  d1 == Bip37Idx(fl(1), e.item)
+                  wrong == {k \in 1..Len(e.touched) : SetOfSeq(e.touched[k].bits) # (IF e.touched[k].t = 0 THEN d0 ELSE d1)}
+              IN IF Len(e.touched) = 0 THEN V("insertion-lost-under-concurrent-reload", 1, 0)
+                 ELSE IF wrong # {} THEN V("insertion-bits-do-not-belong-to-the-loaded-message", [t |-> e.touched[CHOOSE k \in wrong : TRUE].t, d0 |-> d0, d1 |-> d1], e.touched[CHOOSE k \in wrong : TRUE].bits)
+                 ELSE IF Len(e.touched) > 1 THEN V("insertion-applied-to-several-messages", 1, Len(e.touched))
+                 ELSE OK
          [] e.op = "RaceDetector" -> IF e.reports = 0 THEN OK ELSE V("data-race", 0, e.first)
          [] e.op = "GcsConc" -> IF e.bytesbefore # e.bytesafter THEN V("gcs-filter-mutated-by-queries", 0, 1)
                                 ELSE IF \E g \in 1..Len(e.conc) : e.conc[g] # e.seq THEN V("gcs-concurrent-answers-differ", e.seq, "differs")
